@@ -29,6 +29,8 @@ def run(ctx, db, tier):
     subscriber_protocol(ctx, db)
     end_of_stream(ctx, db)
     every_access_style_fetches(ctx, db)
+    delivered_matches_position(ctx, db)
+    copy_continues(ctx, db)
 
 
 def advance_before_read(ctx, db):
@@ -303,3 +305,165 @@ def every_access_style_fetches(ctx, db):
             seen.add((f['key'], ok))
             ctx.ob(rid, f, f['key'], ok, '%s fetches the value exactly once per answer (found between %d and %d check_next calls)' % (name.split('::', 2)[2], a, b),
                    desc='%s performs [%d,%d] check_next calls' % (name, a, b), inst=f['inst'])
+
+
+def _pcanon(a):
+    a = re.sub(r'^(local:\w+|param:\w+|this->_regs\[\])(\.|->)_pos$', 'REG', a)
+    a = re.sub(r'^this->_pos$', 'POS', a)
+    a = re.sub(r'^call\(std::deque::size\)$', 'SIZE', a)
+    return a
+
+
+def _lsub(lf_, env):
+    """substitute symbolic values for atoms of a linear form; None when a needed value is unknown"""
+    if lf_ is None:
+        return None
+    out = {}
+    for a, c in lf_.items():
+        if a in env:
+            v = env[a]
+            if v is None:
+                return None
+            for b, d in v.items():
+                out[b] = out.get(b, 0) + c * d
+        else:
+            out[a] = out.get(a, 0) + c
+    return {k: v for k, v in out.items() if v}
+
+
+def _lin(expr, env):
+    try:
+        return _lsub(linform(expr, _pcanon), env) if expr is not None else None
+    except ValueError:
+        return None
+
+
+def delivered_matches_position(ctx, db):
+    """the element handed out is the one at the registration's recorded position.  Element at stream position p lives at index _pos - p - 1,
+    so on every path that returns _q[i]:  i == _pos - reg._pos - 1 for the value reg._pos has when the function returns.  A read that clamps the
+    index or takes the newest element must move reg._pos with it, otherwise the next advance steps onto the very element just delivered"""
+    rid = ctx.rule('C16.delivered-matches-position', 'LINEAR (symbolic evaluation per path)', 'get_value_lk: on every path that returns an element _q[i], i equals _pos - reg._pos - 1 with reg._pos as that '
+                   'path leaves it (assignments to locals and to reg._pos are evaluated symbolically over _pos, reg._pos, _q.size()): the subscriber continues from the value it was given', floor=3)
+    for f, trs in traces_of(db, 'cocls::publisher::queue::get_value_lk', per_instance=False):
+        trs = [t for t in trs if live(t)]
+        ctx.paths(rid, len(trs))
+        sites = {}
+        for tr in trs:
+            env = {}; reg = {'REG': 1}
+            for it in tr:
+                if it.k == 'decl' and it.get('init') is not None and re.fullmatch(r'local:\w+(#\d+)?', it.get('var') or ''):
+                    env[it['var']] = _lin(it['init'], dict(env, REG=reg))
+                elif it.k == 'write' and re.fullmatch(r'local:\w+(#\d+)?', it.get('path') or ''):
+                    env[it['path']] = _lin(it.get('rhs'), dict(env, REG=reg)) if (it.get('op') or '=') == '=' else None
+                elif it.k == 'write' and _pcanon(it.get('path') or '') == 'REG':
+                    op_ = it.get('op') or '='
+                    if op_ == '=':
+                        reg = _lin(it.get('rhs'), dict(env, REG=reg))
+                    elif op_ in ('++', '--') and reg is not None:
+                        reg = dict(reg); reg[''] = reg.get('', 0) + (1 if op_ == '++' else -1)
+                    else:
+                        reg = None
+                elif it.k == 'call' and norm(it.get('callee') or '') in ('std::deque::operator[]', 'std::deque::at') and norm(it.get('field') or '') == PQ + '::_q':
+                    a = (it.get('args') or [{}])[0]
+                    idx = {'': a['const']} if a.get('const') is not None else _lin(a.get('path'), dict(env, REG=reg))
+                    idx = {k: v for k, v in (idx or {}).items() if v} if idx is not None else None
+                    exp = _lsub({'POS': 1, 'REG': -1, '': -1}, {'REG': reg}) if reg is not None else None
+                    sites.setdefault(it.get('loc'), []).append((idx, exp, tr))
+        if not sites:
+            raise Broken('get_value_lk returns no element of the window: anchor changed')
+        for loc, lst in sorted(sites.items()):
+            bad = next(((i, e, t) for (i, e, t) in lst if i is None or e is None or i != e), None)
+            ctx.ob(rid, f, loc, bad is None, 'the index read is _pos - reg._pos - 1 on all %d path(s) through this read' % len(lst) + ('' if not bad else ' -- index %s, position says %s' % (_fmt_lin(bad[0]), _fmt_lin(bad[1]))),
+                   desc='delivered element is not the one at the recorded position', trace=fmt_trace(bad[2]) if bad else None)
+
+
+def _fmt_lin(l):
+    if l is None:
+        return '?'
+    return ' '.join('%+d*%s' % (c, a or '1') for a, c in sorted(l.items())) or '0'
+
+
+def copy_continues(ctx, db):
+    """a registration that is parked (awaiter stored) has already been advanced to the position of the value it waits for (advance_suspend_lk
+    increments first); whoever takes reg._pos as "last consumed position" for a new registration must subtract that step again"""
+    rid = ctx.rule('C16.copy-continues', 'PATHS+LINEAR', 'subscribe_lk(handle, subscriber) (copy of a subscriber): the position given to the new registration is the source\'s _pos on the edge where the '
+                   'source has no parked awaiter and _pos - 1 on the edge where it has one (advance_suspend_lk parks only after stepping onto the awaited position)', floor=1)
+    # derive the representation of "parked" from advance_suspend_lk itself: the position is incremented on the path that stores the awaiter
+    parked_ahead = None
+    for f, trs in traces_of(db, 'cocls::publisher::queue::advance_suspend_lk', per_instance=False):
+        for tr in trs:
+            st = [i for i, it in enumerate(tr) if it.k == 'write' and (it.get('path') or '').endswith('_awt')]
+            if st:
+                inc = [it for it in tr[:st[0]] if it.k == 'write' and _pcanon(it.get('path') or '') == 'REG' and it.get('op') in ('++', '+=')]
+                parked_ahead = bool(inc) if parked_ahead is None else (parked_ahead and bool(inc))
+    if parked_ahead is None:
+        raise Broken('advance_suspend_lk no longer stores the awaiter: anchor changed')
+    fns = [f for f in db.fns('cocls::publisher::queue::subscribe_lk') if len(f['params']) == 2 and 'subscriber' in f['params'][1]['type'] and 'subscriber' not in f['params'][0]['type']]
+    if not fns:
+        raise Broken('anchor vanished: subscribe_lk(handle, subscriber)')
+    f = fns[0]
+    T = Tracer(db, depth=0)
+    trs = [t for t in T.traces(f) if live(t)]
+    ctx.paths(rid, len(trs))
+    bad = None; n = 0
+    for tr in trs:
+        parked = None
+        for it in tr:
+            if it.k == 'branch':
+                nn = nullness(it)
+                if nn and nn[0].endswith('_awt'):
+                    parked = nn[1]
+        for c in calls(tr):
+            if norm(c.get('callee') or '') == 'cocls::publisher::queue::subscribe_lk' and len(c.get('args') or []) == 2:
+                n += 1
+                p = _resolve_select(c['args'][1].get('path') or '', tr[:tr.index(c)])
+                env = {}
+                for it in tr[:tr.index(c)]:
+                    if it.k == 'decl' and it.get('init') is not None and re.fullmatch(r'local:\w+', it.get('var') or '') and not it.get('ref'):
+                        env[it['var']] = _lin(_resolve_select(it['init'], tr[:tr.index(it)]), env)
+                lin = _lin(p, env)
+                if not parked_ahead or parked is False:
+                    want = {'REG': 1}
+                elif parked is True:
+                    want = {'REG': 1, '': -1}
+                else:
+                    want = None
+                if want is None:
+                    bad = bad or ('the copy takes the position of the source without testing whether the source is parked (a parked registration stands one position ahead)', tr)
+                elif lin != want:
+                    bad = bad or ('on the %s edge the copy starts at %s instead of %s' % ('parked' if parked else 'not parked', _fmt_lin(lin), _fmt_lin(want)), tr)
+    if n == 0:
+        raise Broken('subscribe_lk(handle, subscriber) does not register through subscribe_lk(subscriber, position)')
+    ctx.ob(rid, f, f['key'], bad is None, 'the copy continues from the last value the source consumed' + ('' if not bad else ' -- ' + bad[0]), desc=bad[0][:110] if bad else None, trace=fmt_trace(bad[1]) if bad else None)
+
+
+def _split_select(p):
+    """'(C ? A : B)' -> (C, A, B) or None (balanced parentheses)"""
+    if not (p.startswith('(') and p.endswith(')')):
+        return None
+    body = p[1:-1]; depth = 0; q = c = None
+    for i, ch in enumerate(body):
+        if ch == '(':
+            depth += 1
+        elif ch == ')':
+            depth -= 1
+        elif depth == 0 and body[i:i + 3] == ' ? ' and q is None:
+            q = i
+        elif depth == 0 and body[i:i + 3] == ' : ' and q is not None and c is None:
+            c = i
+    if q is None or c is None:
+        return None
+    return body[:q], body[q + 3:c], body[c + 3:]
+
+
+def _resolve_select(p, before):
+    """value of a conditional expression on this path: the arm chosen by the branch on its condition"""
+    for _ in range(3):
+        sp = _split_select(p or '')
+        if not sp:
+            return p
+        br = next((it for it in reversed(before) if it.k == 'branch' and (it.get('opath') == sp[0] or it.get('path') == sp[0])), None)
+        if br is None:
+            return p
+        p = sp[1] if br.val else sp[2]
+    return p
